@@ -39,6 +39,7 @@ type Pev struct {
 	Type  string `json:"type"`            // close error bad elem
 	Reply bool   `json:"reply,omitempty"` // elem: the handler (or Serve by default) writes a reply
 	Fail  bool   `json:"fail,omitempty"`  // elem: the handler returns an error
+	Err   string `json:"err,omitempty"`   // elem, fail: which error ("" plain; wrapeof: an error that wraps io.EOF; eofcause: joined with io.EOF)
 	Form  string `json:"form,omitempty"`  // textual variant
 }
 
@@ -331,6 +332,15 @@ func msgReader(id, typ string) xml.TokenReader {
 
 var errBoom = errors.New("boom")
 
+// handler errors that wrap io.EOF: Serve must treat them like any other handler
+// error (only io.EOF itself, which the stream reader returns for the peer's
+// closing element, ends Serve with nil)
+var (
+	errWrapEOF  = fmt.Errorf("handler: short payload: %w", io.EOF)
+	errJoinEOF  = errors.Join(errBoom, io.EOF)
+	handlerErrs = map[string]error{"": errBoom, "wrapeof": errWrapEOF, "eofcause": errJoinEOF}
+)
+
 type emptyReader struct{}
 
 func (emptyReader) Token() (xml.Token, error) { return nil, io.EOF }
@@ -491,9 +501,10 @@ func peerBytes(ev *Pev, idx int, ws bool) []byte {
 // handler implements the peer-chosen behaviours: the element's id encodes the
 // actor index; the behaviour table is consulted by index.
 type handler struct {
-	mu     sync.Mutex
-	behave map[string]*Pev // by element id
-	idx    map[string]int
+	mu      sync.Mutex
+	behave  map[string]*Pev // by element id
+	idx     map[string]int
+	handled []string // ids of the elements the handler has been called for (and has dealt with)
 }
 
 func (h *handler) HandleXMPP(t xmlstream.TokenReadEncoder, start *xml.StartElement) error {
@@ -510,6 +521,9 @@ func (h *handler) HandleXMPP(t xmlstream.TokenReadEncoder, start *xml.StartEleme
 	if ev == nil {
 		return nil
 	}
+	h.mu.Lock()
+	h.handled = append(h.handled, id)
+	h.mu.Unlock()
 	if ev.Reply && ev.Form != "iq" {
 		st := xml.StartElement{Name: xml.Name{Local: "message"}, Attr: []xml.Attr{{Name: xml.Name{Local: "id"}, Value: elemID(idx)}}}
 		if err := t.EncodeToken(st); err != nil {
@@ -520,7 +534,7 @@ func (h *handler) HandleXMPP(t xmlstream.TokenReadEncoder, start *xml.StartEleme
 		}
 	}
 	if ev.Fail {
-		return errBoom
+		return handlerErrs[ev.Err]
 	}
 	return nil
 }
@@ -542,7 +556,7 @@ func classify(err error) string {
 		return "ECtxCanceled"
 	case errors.Is(err, os.ErrDeadlineExceeded):
 		return "ETimeout"
-	case errors.Is(err, errBoom):
+	case errors.Is(err, errBoom), err == errWrapEOF:
 		return "EHandler"
 	case errors.As(err, &se):
 		return "EStream"
